@@ -52,9 +52,10 @@ CLAIM = {
     "note": "Trusted: the transcription of ComponentManager / engine __init__ / setup and of layered_config_tree (library, "
             "validated by the `cfg` and `ctx` correspondences on the explored cases only); the harness's wrappers "
             "(LayeredConfigTree.update, ComponentManager.add_managers, each manager's setup - recording only) and the "
-            "private attribute LayeredConfigTree._layers (read defensively). Open finding F-AA: deletion on the frozen "
+            "layer list recorded from the public `layers` argument of LayeredConfigTree(...) (the library's private _layers only as a "
+            "fallback). Open finding F-AA: deletion on the frozen "
             "configuration succeeds (library); C20_frozen covers update / assignment only, C20_frozen_deletion_refuted is the "
-            "witness. Not covered: the ~/vivarium.yaml user layer; the configuration's content after a REFUSED update of a "
+            "witness. Not covered: the configuration's content after a REFUSED update of a "
             "partly frozen tree (library partial effects).",
 }
 RULE = ("ctx: forests of 0-14 probe components (depth <= 4, fan-out <= 4, nested lists / tuples at top level and inside "
@@ -70,12 +71,12 @@ ASSUMPTIONS = [
     "a component's behaviour towards the manager is its name, its configuration_defaults and its sub_components "
     "(probe components override exactly these three properties and setup)",
     "python dict keys are unique at every level of supplied configuration data (wf_data)",
-    "no ~/vivarium.yaml exists on the machine running the check (the user_configs layer stays empty)",
+    "HOME is pointed at a private temporary directory while a context is built (with or without a vivarium.yaml)",
 ]
 TRUSTED = [
     "C20: class-level recording wrappers of LayeredConfigTree.update and ComponentManager.add_managers, instance-level "
-    "wrappers of each manager's setup (record, then call through); LayeredConfigTree._layers read with getattr (if it "
-    "is missing the table obligation fails closed)",
+    "wrappers of each manager's setup (record, then call through); the layer list is the `layers` argument recorded by a wrapper of the public "
+    "LayeredConfigTree constructor; no private attribute of /repo/src is read",
 ]
 LEVEL_NOTE = ("Full for flatten / duplicate rejection / set-up order / precedence / clash rejection / freeze over all inputs; "
               "the layer table is regenerated and re-proved each run.")
@@ -129,13 +130,20 @@ class Recording:
     def __init__(self):
         self.updates = []       # (data, layer, source) of every LayeredConfigTree.update call
         self.managers = []      # the objects handed to ComponentManager.add_managers
+        self.layer_lists = []   # the `layers` argument of every LayeredConfigTree(...) built meanwhile
 
     def __enter__(self):
         from layered_config_tree import LayeredConfigTree
         from vivarium.framework.components.manager import ComponentManager
         self.LCT, self.CM = LayeredConfigTree, ComponentManager
         self.orig_update, self.orig_add = LayeredConfigTree.update, ComponentManager.add_managers
+        self.orig_init = LayeredConfigTree.__init__
         rec = self
+
+        def init(tree, data=None, layers=[], name="", *a, **k):  # noqa: B006 - mirrors the library's signature
+            if layers:
+                rec.layer_lists.append(list(layers))
+            return rec.orig_init(tree, data, layers, name, *a, **k)
 
         def update(tree, data, layer=None, source=None):
             rec.updates.append((data, layer, source))
@@ -147,12 +155,56 @@ class Recording:
             return rec.orig_add(cm, managers)
 
         LayeredConfigTree.update = update
+        LayeredConfigTree.__init__ = init
         ComponentManager.add_managers = add_managers
         return self
 
     def __exit__(self, *a):
         self.LCT.update = self.orig_update
+        self.LCT.__init__ = self.orig_init
         self.CM.add_managers = self.orig_add
+
+
+_HOME = [None]
+
+
+def temp_home(user):
+    """a private HOME for the context under construction: with a vivarium.yaml holding `user` (or none if empty) - the check
+    no longer depends on the real home directory"""
+    import atexit
+    import shutil
+    import tempfile
+    import yaml
+    if _HOME[0] is None:
+        _HOME[0] = tempfile.mkdtemp(prefix="verif_c20_home_")
+        atexit.register(lambda: shutil.rmtree(_HOME[0], ignore_errors=True))
+    path = os.path.join(_HOME[0], "vivarium.yaml")
+    if user:
+        with open(path, "w") as fh:
+            yaml.safe_dump(user, fh, sort_keys=False)
+    elif os.path.exists(path):
+        os.remove(path)
+    return _HOME[0]
+
+
+class Home:
+    def __init__(self, user):
+        self.user = user
+
+    def __enter__(self):
+        self.old = os.environ.get("HOME")
+        os.environ["HOME"] = temp_home(self.user)
+
+    def __exit__(self, *a):
+        if self.old is None:
+            os.environ.pop("HOME", None)
+        else:
+            os.environ["HOME"] = self.old
+
+
+def is_user_yaml(data):
+    from pathlib import Path
+    return isinstance(data, (str, Path)) and str(data).endswith("vivarium.yaml")
 
 
 def contains_key(data, key):
@@ -175,26 +227,26 @@ def make_probe_class():
 
         def __init__(self, pname, defaults, subs, shared):
             super().__init__()
-            self._pname, self._defaults, self._subs, self.shared = pname, defaults, subs, shared
+            self.vp_name, self.vp_defaults, self.vp_subs, self.shared = pname, defaults, subs, shared
 
         @property
         def name(self):
-            return self._pname
+            return self.vp_name
 
         @property
         def configuration_defaults(self):
-            return self._defaults
+            return self.vp_defaults
 
         @property
         def sub_components(self):
-            return self._subs
+            return self.vp_subs
 
         def setup(self, builder):
             sh = self.shared
-            sh["log"].append(self._pname)
+            sh["log"].append(self.vp_name)
             cfg = builder.configuration
             sh["cfg"] = cfg
-            sh["events"].append(("reads", self._pname, [read_path(cfg, p) for p in sh["paths"]]))
+            sh["events"].append(("reads", self.vp_name, [read_path(cfg, p) for p in sh["paths"]]))
             if not sh["attempted"]:              # the FIRST probe to be set up tries to modify the configuration
                 sh["attempted"] = True
                 run_attempts(cfg, sh["paths"], sh["attempts"], sh["events"], "setup")
@@ -321,18 +373,25 @@ def ensure_table():
     shared = {"log": [], "events": [], "paths": [], "attempts": [], "attempted": True}
     probe = Probe("layer_probe", {"comp_marker_key": 3}, [], shared)
     ms = LayeredConfigTree({"configuration": {"spec_marker_key": 1}})       # built BEFORE recording starts
-    with Recording() as rec:
+    with Home({"user_marker_key": 0}), Recording() as rec:
         sim = SimulationContext(model_specification=ms, components=[probe], configuration={"over_marker_key": 2},
                                 logging_verbosity=0)
     boot.quiet_logging()
-    layers = list(getattr(sim.configuration, "_layers"))
+    # the layer list: the `layers` argument the context's configuration tree was constructed with (public constructor
+    # argument, recorded); only if nothing was recorded, the library's private attribute
+    multi = [l for l in rec.layer_lists if len(l) > 1]
+    layers = multi[0] if multi else list(getattr(sim.configuration, "_layers", None) or [])
+    if not layers:
+        raise RuntimeError("could not observe the configuration's layer list")
     mgrs = [(m.name, dict(m.configuration_defaults)) for m in rec.managers]
     mnames = {n for n, _ in mgrs}
 
     def lay(l):
         return layers[-1] if l is None else l
-    w = {"mgr": set(), "comp": set(), "spec": set(), "over": set()}
+    w = {"mgr": set(), "comp": set(), "spec": set(), "over": set(), "user": set()}
     for data, layer, source in rec.updates:
+        if is_user_yaml(data):
+            w["user"].add(lay(layer))
         if source in mnames and isinstance(data, dict) and data:
             w["mgr"].add(lay(layer))
         if source == "layer_probe" and contains_key(data, "comp_marker_key"):
@@ -346,8 +405,9 @@ def ensure_table():
             raise RuntimeError(f"writer `{k}` used the layers {sorted(v)} (expected exactly one) - updates seen: "
                                f"{[(l, s) for _, l, s in rec.updates][:12]}")
     _TABLE.update(layers=layers, l_mgr=w["mgr"].pop(), l_comp=w["comp"].pop(), l_spec=w["spec"].pop(),
-                  l_over=w["over"].pop(), managers=mgrs,
-                  seen={"comp": read_path(sim.configuration, ["comp_marker_key"]),
+                  l_over=w["over"].pop(), l_user=w["user"].pop(), managers=mgrs,
+                  seen={"user": read_path(sim.configuration, ["user_marker_key"]),
+                        "comp": read_path(sim.configuration, ["comp_marker_key"]),
                         "spec": read_path(sim.configuration, ["spec_marker_key"]),
                         "over": read_path(sim.configuration, ["over_marker_key"])})
     return _TABLE
@@ -359,8 +419,9 @@ def tables(run):
              "From Viv Require Import Common Config ConfigProofs Components ComponentsProofs.",
              "From VivProps Require Import C20.",
              "Local Open Scope Z_scope.", "",
-             "(* LayeredConfigTree._layers of the context's configuration: " + ", ".join(f"{LAYERS(l)} = {l}" for l in t["layers"]) + " *)",
+             "(* the layer list the context's configuration tree was constructed with: " + ", ".join(f"{LAYERS(l)} = {l}" for l in t["layers"]) + " *)",
              "Definition cfg_layers : list Z := " + czlist(LAYERS(l) for l in t["layers"]) + ".",
+             f"Definition l_user : Z := {cz(LAYERS(t['l_user']))}.   (* layer used for ~/vivarium.yaml: {t['l_user']} *)",
              f"Definition l_mgr : Z := {cz(LAYERS(t['l_mgr']))}.    (* layer used for manager defaults: {t['l_mgr']} *)",
              f"Definition l_comp : Z := {cz(LAYERS(t['l_comp']))}.   (* layer used for component defaults: {t['l_comp']} *)",
              f"Definition l_spec : Z := {cz(LAYERS(t['l_spec']))}.   (* layer used for the model specification: {t['l_spec']} *)",
@@ -368,15 +429,15 @@ def tables(run):
              "(* managers handed to ComponentManager.add_managers, in order, with their configuration_defaults *)",
              "Definition mgr_table : list centry := " + clist("\n  " + cpair(cz(NAMES(n)), cdict(d)) + f" (* {n} *)" for n, d in t["managers"]) + ".",
              "",
-             "(* manager and component defaults are written strictly below BOTH user layers *)",
-             "Theorem C20_layers_ok : layers_okb cfg_layers l_mgr l_comp l_spec l_over = true.",
+             "(* manager and component defaults, and ~/vivarium.yaml, are written strictly below BOTH user layers *)",
+             "Theorem C20_layers_ok : layers_okb cfg_layers l_user l_mgr l_comp l_spec l_over = true.",
              "Proof. vm_compute. reflexivity. Qed.",
              "Lemma mgr_table_wf : wf_entries mgr_table.",
              "Proof. apply wf_entries_b_sound. vm_compute. reflexivity. Qed.",
              "(* ... hence, for the context as it is built TODAY: a key the user gave a value for reads as a user value, else the default *)",
-             "Theorem C20_user_wins_today : forall spec over is ctx p,",
-             "  wf_data (DDict spec) -> wf_data (DDict over) -> wf_entries (pre_all is) ->",
-             "  build_context cfg_layers l_mgr l_comp l_spec l_over mgr_table spec over is = Ok ctx ->",
+             "Theorem C20_user_wins_today : forall user spec over is ctx p,",
+             "  wf_data (DDict user) -> wf_data (DDict spec) -> wf_data (DDict over) -> wf_entries (pre_all is) ->",
+             "  build_context cfg_layers l_user l_mgr l_comp l_spec l_over mgr_table user spec over is = Ok ctx ->",
              "  (forall v, dleaf (DDict over) p = Some v -> dleaf (DDict spec) p = None \\/ below cfg_layers l_spec l_over ->",
              "             get cfg_layers (c_cfg ctx) p = LVal v) /\\",
              "  (forall v, dleaf (DDict spec) p = Some v -> dleaf (DDict over) p = None \\/ below cfg_layers l_over l_spec ->",
@@ -384,25 +445,36 @@ def tables(run):
              "  (forall vo vs, dleaf (DDict over) p = Some vo -> dleaf (DDict spec) p = Some vs ->",
              "             get cfg_layers (c_cfg ctx) p = LVal vo \\/ get cfg_layers (c_cfg ctx) p = LVal vs) /\\",
              "  (forall X d l n Y v, dleaf (DDict over) p = None -> dleaf (DDict spec) p = None ->",
+             "     dleaf (DDict user) p = None \\/ below cfg_layers l_user l ->",
              "     default_updates l_mgr l_comp mgr_table is = X ++ (d, l, n) :: Y -> dleaf (DDict d) p = Some v ->",
              "     (forall d' l' n', In (d', l', n') (X ++ Y) -> dleaf (DDict d') p = None) ->",
-             "     get cfg_layers (c_cfg ctx) p = LVal v).",
+             "     get cfg_layers (c_cfg ctx) p = LVal v) /\\",
+             "  (forall v, dleaf (DDict over) p = None -> dleaf (DDict spec) p = None ->",
+             "     (forall d' l' n', In (d', l', n') (default_updates l_mgr l_comp mgr_table is) -> dleaf (DDict d') p = None) ->",
+             "     dleaf (DDict user) p = Some v -> get cfg_layers (c_cfg ctx) p = LVal v).",
              "Proof.",
-             "  destruct (C20_layers_okb_sound _ _ _ _ _ C20_layers_ok) as [H1 [H2 [H3 [H4 H5]]]]. intros spec over is ctx p W1 W2 W3 Hb.",
-             "  apply (C20_user_wins cfg_layers l_mgr l_comp l_spec l_over H1 H2 H3 H4 H5 mgr_table spec over is ctx p W1 W2 mgr_table_wf W3 Hb).",
+             "  destruct (C20_layers_okb_sound _ _ _ _ _ _ C20_layers_ok) as [H1 [H2 [H3 [H4 [H5 [H8 H9]]]]]].",
+             "  intros user spec over is ctx p W0 W1 W2 W3 Hb.",
+             "  apply (C20_user_wins cfg_layers l_user l_mgr l_comp l_spec l_over H1 H8 H9 H2 H3 H4 H5 mgr_table user spec over is ctx p",
+             "           W0 W1 W2 mgr_table_wf W3 Hb).",
              "Qed.",
              "(* the markers written while the table was recorded read back as the model says *)",
              "Example markers_read_back :",
-             "  match build_context cfg_layers l_mgr l_comp l_spec l_over mgr_table " +
+             "  match build_context cfg_layers l_user l_mgr l_comp l_spec l_over mgr_table " +
+             f"[({cz(KEYS('user_marker_key'))}, DVal {cz(val_id(0))})] " +
              f"[({cz(KEYS('spec_marker_key'))}, DVal {cz(val_id(1))})] [({cz(KEYS('over_marker_key'))}, DVal {cz(val_id(2))})] " +
              f"[Comp {cz(NAMES('layer_probe'))} [({cz(KEYS('comp_marker_key'))}, DVal {cz(val_id(3))})] []] with",
-             "  | Ok ctx => (look_code (get cfg_layers (c_cfg ctx) " + cpath(["comp_marker_key"]) + "), look_code (get cfg_layers (c_cfg ctx) " +
+             "  | Ok ctx => (look_code (get cfg_layers (c_cfg ctx) " + cpath(["user_marker_key"]) + "), look_code (get cfg_layers (c_cfg ctx) " + cpath(["comp_marker_key"]) + "), look_code (get cfg_layers (c_cfg ctx) " +
              cpath(["spec_marker_key"]) + "), look_code (get cfg_layers (c_cfg ctx) " + cpath(["over_marker_key"]) + "))",
-             "  | _ => ((9, 0), (9, 0), (9, 0))",
+             "  | _ => ((9, 0), (9, 0), (9, 0), (9, 0))",
              "  end = (" + ", ".join(cpair(cz(c), cz(val_id(v) if c == 0 else 0)) for c, v in
-                                     (t["seen"]["comp"], t["seen"]["spec"], t["seen"]["over"])) + ").",
+                                     (t["seen"]["user"], t["seen"]["comp"], t["seen"]["spec"], t["seen"]["over"])) + ").",
              "Proof. vm_compute. reflexivity. Qed.",
              "Print Assumptions C20_layers_ok.", "Print Assumptions C20_user_wins_today.", ""]
+    if max(t["layers"].index(t["l_user"]), 0) < min(t["layers"].index(t["l_mgr"]), t["layers"].index(t["l_comp"])):
+        lines += ["(* as documented today: ~/vivarium.yaml lies below the defaults of managers and components *)",
+                  "Example user_yaml_below_defaults : belowb cfg_layers l_user l_mgr && belowb cfg_layers l_user l_comp = true.",
+                  "Proof. vm_compute. reflexivity. Qed.", ""]
     if t["layers"].index(t["l_spec"]) < t["layers"].index(t["l_over"]):
         lines += ["(* as documented today: the keyword arguments' layer lies above the model specification's *)",
                   "Example keyword_arguments_above_model_specification : belowb cfg_layers l_spec l_over = true.",
@@ -528,7 +600,8 @@ def gen_ctx(rng):
     p_del = rng.choice([0.0, 0.0, 0.0, 0.4])
     forest = gen_forest(rng)
     via = rng.choice(["ctor", "add", "add", "spec", "spec", "spec+ctor", "spec+add"])
-    case = {"forest": forest, "spec": gen_cfgdict(rng, rng.choice([0.0, 0.15, 0.3])),
+    case = {"forest": forest, "user": gen_cfgdict(rng, 0.3) if rng.random() < 0.3 else {},
+            "spec": gen_cfgdict(rng, rng.choice([0.0, 0.15, 0.3])),
             "over": gen_cfgdict(rng, rng.choice([0.0, 0.15, 0.3])), "via": via,
             "spec_as": rng.choice(["tree", "none_if_empty"]), "attempts": gen_attempts(rng, p_del),
             "outside": gen_attempts(rng, p_del) if rng.random() < 0.5 else []}
@@ -672,7 +745,8 @@ def run_ctx(case):
         ms = None if (case["spec_as"] == "none_if_empty" and not spec and not n_spec) else LayeredConfigTree(spec_tree)
     built, setup_ok, build_err, setup_err = True, None, None, None
     sim, add_refused = None, False
-    with Recording() as rec:
+    user = case.get("user") or {}
+    with Home(user), Recording() as rec:
         try:
             sim = SimulationContext(model_specification=ms, components=objs if via in ("ctor", "spec+ctor") else [],
                                     configuration=case["over"], logging_verbosity=0)
@@ -734,7 +808,8 @@ def run_ctx(case):
         fail(f"duplicate names ({dup}) / a manager's name ({like_manager}) / two defaults for one key ({clash}) were accepted: "
              f"components {names}")
     # every legitimate combination must be accepted: user values over keys that components / managers default included
-    sources = [dict(leaves(case["spec"])), dict(leaves(case["over"]))] + [dict(leaves(d)) for _, d in t["managers"] + flat]
+    sources = [dict(leaves(case["spec"])), dict(leaves(case["over"]))] + [dict(leaves(d)) for _, d in t["managers"] + flat] + \
+              [dict(leaves(user))]
 
     def structural(a, b):
         return any(pa != pb and (pa[:len(pb)] == pb or pb[:len(pa)] == pa) for pa in a for pb in b)
@@ -779,11 +854,18 @@ def run_ctx(case):
                     want = spec_l[tp]
                 elif tp in default_leaves and len(default_leaves[tp]) == 1:
                     want = default_value[tp]
+                    if tp in dict(leaves(user)):             # both a default and ~/vivarium.yaml: the higher layer (as observed)
+                        lay_d = t["l_mgr"] if default_leaves[tp][0] in mnames else t["l_comp"]
+                        if t["layers"].index(t["l_user"]) > t["layers"].index(lay_d):
+                            want = dict(leaves(user))[tp]
+                elif tp not in default_leaves and tp in dict(leaves(user)):
+                    want = dict(leaves(user))[tp]            # ~/vivarium.yaml where nobody else sets the key
                 else:
                     continue
                 if code != 0 or json.dumps(v, default=str) != json.dumps(want, default=str):
                     fail(f"{'.'.join(path)} reads {(code, v)} during setup; keyword argument {over_l.get(tp, '-')}, "
-                         f"model specification {spec_l.get(tp, '-')}, defaults by {default_leaves.get(tp, [])}")
+                         f"model specification {spec_l.get(tp, '-')}, defaults by {default_leaves.get(tp, [])}, "
+                         f"~/vivarium.yaml {dict(leaves(user)).get(tp, '-')}")
             # FROZEN: nothing a component (or anybody, later) does changes what the configuration reads
             prev, cause = first, None
             for ev in events[1:]:
@@ -809,8 +891,8 @@ def run_ctx(case):
     # ---------------- Coq ----------------
     cops = ccops(PATHS, shared["events"]) if (built and setup_ok and shared["events"]) else "[]"
     cpartial = "None" if partial is None else "(Some (%s, %s))" % (cbool(partial[0]), czlist(NAMES(n) for n in partial[1]) if partial[0] else "[]")
-    coq = ("{| x_forest := %s; x_spec := %s; x_over := %s; x_built := %s; x_setup := %s; x_log := %s; x_partial := %s; x_cops := %s |}" % (
-        clist(citem(it) for it in case["forest"]), cdict(spec), cdict(case["over"]), cbool(built), cbool(bool(setup_ok) and built),
+    coq = ("{| x_forest := %s; x_user := %s; x_spec := %s; x_over := %s; x_built := %s; x_setup := %s; x_log := %s; x_partial := %s; x_cops := %s |}" % (
+        clist(citem(it) for it in case["forest"]), cdict(user), cdict(spec), cdict(case["over"]), cbool(built), cbool(bool(setup_ok) and built),
         czlist(NAMES(n) for n in log) if (built and setup_ok) else "[]", cpartial, cops))
     exact = (built and setup_ok and log[len(mnames):] == names)
     ndel = sum(1 for a in case["attempts"] + case.get("outside", []) if a["kind"] in ("del", "delattr"))
@@ -820,12 +902,53 @@ def run_ctx(case):
             f"n{min(len(names), 14) // 3 * 3}", "dup" if dup else "nodup", "clash" if clash else "noclash", "via_" + via,
             ("spec_yaml" if yaml_path else "spec_tree") if n_spec else "no_spec_block",
             "spec_dup" if n_spec and len({it["c"] for it in forest[:n_spec]}) < n_spec else "spec_nodup",
-            "deletions" if ndel else "no_deletions") + ((("preorder_exact" if exact else "other_valid_order"),) if built and setup_ok else ())
-    nontrivial = bool(names) or bool(spec) or bool(case["over"])
+            "deletions" if ndel else "no_deletions", "user_yaml" if user else "no_user_yaml") + ((("preorder_exact" if exact else "other_valid_order"),) if built and setup_ok else ())
+    nontrivial = bool(names) or bool(spec) or bool(case["over"]) or bool(user)
     return Result(ok=ok, msg=msg, coq=coq, key=json.dumps(case, sort_keys=True) if nontrivial else None,
                   obs={"built": built, "setup": setup_ok, "log": log[len(mnames):][:20], "error": repr(build_err or setup_err)[:200],
                        "failure_classes": sorted({c for c, _ in failures})},
                   tags=tags)
+
+
+def shrink_ctx(case):
+    """smaller variants: drop a component (any depth, keeping or dropping its sub-tree), its defaults, a configuration key of
+    any source, an attempt, the special supply routes"""
+    def forests(items):
+        for i, it in enumerate(items):
+            yield items[:i] + items[i + 1:]
+            kids = it["s"] if "c" in it else it["g"]
+            yield items[:i] + kids + items[i + 1:]                        # splice the children in its place
+            for sub in forests(kids):
+                yield items[:i] + [dict(it, **({"s": sub} if "c" in it else {"g": sub}))] + items[i + 1:]
+            if "c" in it and it["d"]:
+                yield items[:i] + [dict(it, d={})] + items[i + 1:]
+    for f in forests(case["forest"]):
+        yield dict(case, forest=copy.deepcopy(f))
+    for src in ("user", "spec", "over"):
+        for k in list(case.get(src) or {}):
+            d = dict(case[src])
+            del d[k]
+            yield dict(case, **{src: d})
+    for lst in ("attempts", "outside"):
+        for i in range(len(case.get(lst) or [])):
+            yield dict(case, **{lst: case[lst][:i] + case[lst][i + 1:]})
+    if case.get("via") not in ("add", None):
+        yield dict(case, via="add")
+    if (case.get("spec_style") or {}).get("yaml"):
+        yield dict(case, spec_style=dict(case["spec_style"], yaml=False))
+    if (case.get("spec_style") or {}).get("nest", "flat") != "flat":
+        yield dict(case, spec_style=dict(case["spec_style"], nest="flat"))
+
+
+def shrink_cfg(case):
+    for i in range(len(case["ops"])):
+        yield dict(case, ops=case["ops"][:i] + case["ops"][i + 1:])
+    for i, op in enumerate(case["ops"]):
+        if op["op"] == "update":
+            for k in list(op["data"]):
+                d = dict(op["data"])
+                del d[k]
+                yield dict(case, ops=case["ops"][:i] + [dict(op, data=d)] + case["ops"][i + 1:])
 
 
 def corpus_ctx():
@@ -997,9 +1120,9 @@ def corpus_cfg():
 def streams(tier):
     return [
         Stream(name="ctx", imports="From Viv Require Import Common Config Components.\nFrom VivGen Require Import ConfigLayers_C20.",
-               check="(check_ctx cfg_layers l_mgr l_comp l_spec l_over mgr_table)", gen=gen_ctx, run=run_ctx,
-               n_quick=500, n_thorough=1500, corpus=corpus_ctx, finding_of=finding_of_ctx,
+               check="(check_ctx cfg_layers l_user l_mgr l_comp l_spec l_over mgr_table)", gen=gen_ctx, run=run_ctx,
+               n_quick=500, n_thorough=1500, corpus=corpus_ctx, finding_of=finding_of_ctx, shrink=shrink_ctx,
                doc="real contexts built from generated component forests and configuration layerings"),
         Stream(name="cfg", imports="From Viv Require Import Common Config.", check="check_cfg", gen=gen_cfg, run=run_cfg,
-               n_quick=500, n_thorough=3000, corpus=corpus_cfg, doc="stand-alone LayeredConfigTree operation sequences"),
+               n_quick=500, n_thorough=3000, corpus=corpus_cfg, shrink=shrink_cfg, doc="stand-alone LayeredConfigTree operation sequences"),
     ]
